@@ -58,6 +58,9 @@ pub fn gen_bracket(r: &mut Rng, depth: usize, dot: bool) -> String {
         let op = *r.pick(&["&&", "--", "~~"]);
         let lhs = if r.chance(50) { gen_bracket(r, depth - 1, dot) } else { gen_union(r, depth - 1, dot) };
         let rhs = if r.chance(60) { gen_bracket(r, depth - 1, dot) } else { gen_union(r, depth - 1, dot) };
+        // now and then an empty operand (`[~~a]`, `[a--]`): decided without drawing
+        let h = lhs.len() * 3 + rhs.len() + depth;
+        let (lhs, rhs) = if h % 9 == 0 { (String::new(), rhs) } else if h % 9 == 1 { (lhs, String::new()) } else { (lhs, rhs) };
         format!("[{}{}{}{}]", neg, lhs, op, rhs)
     } else {
         format!("[{}{}]", neg, gen_union(r, depth, dot))
